@@ -85,6 +85,12 @@ Definition spec_unary (k : uclass) (a : tdesc) : option tkind :=
 Definition spec_ternary (E : cenv) (c a b : tdesc) : option tkind :=
   if tdesc_eqb c (DConcrete T_BOOL) then common_concrete E a b else None.
 
+(* `l[i]` (read, and the target of an element write): l is a list, i an integer (a literal, int or uint) -- the result is the element type *)
+Definition spec_index (ix : tdesc) : bool :=
+  match ix with DConstInteger => true | DConcrete t => tkind_eqb t T_INT || tkind_eqb t T_UINT | _ => false end.
+Definition spec_subscript (obj ix : tdesc) : option tkind :=
+  match concrete obj with Some (TList e) => if spec_index ix then Some e else None | _ => None end.
+
 (* assignability: same type, a literal class below it, enum alias, or pointer upcast -- nothing else *)
 Definition spec_assignable (E : cenv) (target : tkind) (a : tdesc) : bool :=
   match a with
